@@ -131,8 +131,8 @@ Fixpoint nodup_s (l : list string) : bool :=
 Definition g_shape (v : sval) : bool :=
   match v with SPrim _ => true | SArr ts => negb (is_nil ts) | SObj kvs => negb (is_nil kvs) && nodup_s (map fst kvs) end.
 
-(* class 4: an object schema with an additionalProperties schema decodes every member - the
-   declared ones too - with that schema; guard: no declared member is present in that case *)
+(* former class 4 (repaired in /repo, no longer used by the judge): an object schema with an
+   additionalProperties schema decoded every member - the declared ones too - with that schema *)
 Definition g_ap (p : pdef) (v : sval) : bool :=
   match shape_of (pd_schema p), v with
   | ShObj decl (Some _), SObj kvs => forallb (fun kv => negb (str_in (fst kv) (map fst decl))) kvs
